@@ -12,6 +12,13 @@ use serde::{Deserialize, Serialize};
 use crate::rng::{digest128, fold, Rng};
 
 pub const NOBODY: usize = usize::MAX;
+/// Upper bound on tasks per episode: the callers plus every thread the crate under test spawns.
+pub const MAX_TASKS: usize = 96;
+
+/// Set once a thread started by the crate under test outlived its episode and now runs freely
+/// (for instance a lazily started, process-wide worker). From then on other threads can make
+/// progress outside the scheduler's view, so "every task is blocked" no longer proves a deadlock.
+pub static FOREIGN_THREADS: std::sync::atomic::AtomicBool = std::sync::atomic::AtomicBool::new(false);
 
 #[derive(Clone, Debug, PartialEq, Serialize, Deserialize)]
 pub enum Policy {
@@ -69,6 +76,9 @@ pub struct SchedStats {
     pub clock_reads: u64,
     #[serde(default)]
     pub simulated_ns: u64,
+    /// threads started by the crate under test that ran as simulated tasks (facade build only)
+    #[serde(default)]
+    pub spawned_threads: u64,
     /// site -> [hit, switched here, crashed here]
     pub sites: BTreeMap<String, [u64; 3]>,
 }
@@ -84,6 +94,7 @@ impl SchedStats {
         self.sync_points += o.sync_points;
         self.clock_reads += o.clock_reads;
         self.simulated_ns = self.simulated_ns.saturating_add(o.simulated_ns);
+        self.spawned_threads += o.spawned_threads;
         for (k, v) in &o.sites {
             let e = self.sites.entry(k.clone()).or_insert([0; 3]);
             for i in 0..3 {
@@ -111,12 +122,20 @@ pub struct State {
     pub clock_reads: u64,
     /// set when every runnable task is blocked on another: (site, streak)
     pub deadlock: Option<String>,
+    /// number of caller tasks (ids below this); higher ids are threads spawned by the crate
+    primary: usize,
+    /// the episode is over for the scheduler: every parked thread continues on its own
+    released: bool,
+    /// decisions taken after the last caller finished (helper threads winding down)
+    tail_decisions: u64,
+    pub spawned: u64,
 }
 
 pub struct Sim {
     m: Mutex<State>,
     cvs: Vec<Condvar>,
     main_cv: Condvar,
+    released: std::sync::atomic::AtomicBool,
 }
 
 struct TaskCtx {
@@ -162,9 +181,14 @@ impl Sim {
                 sim_clock_ns: 0,
                 clock_reads: 0,
                 deadlock: None,
+                primary: n_tasks,
+                released: false,
+                tail_decisions: 0,
+                spawned: 0,
             }),
-            cvs: (0..n_tasks).map(|_| Condvar::new()).collect(),
+            cvs: (0..MAX_TASKS.max(n_tasks)).map(|_| Condvar::new()).collect(),
             main_cv: Condvar::new(),
+            released: std::sync::atomic::AtomicBool::new(false),
         })
     }
 
@@ -191,7 +215,7 @@ impl Sim {
         let mut st = self.lock();
         let mut last = st.stats.decisions;
         let mut since = std::time::Instant::now();
-        while st.alive.iter().any(|a| *a) {
+        while !st.released && st.alive.iter().any(|a| *a) {
             let (g, _) = self
                 .main_cv
                 .wait_timeout(st, std::time::Duration::from_millis(500))
@@ -216,19 +240,48 @@ impl Sim {
         let mut stats = st.stats.clone();
         stats.clock_reads = st.clock_reads;
         stats.simulated_ns = st.sim_clock_ns;
+        stats.spawned_threads = st.spawned;
         (st.decisions.clone(), st.trace, stats)
     }
 
     fn wait_for_baton<'a>(&'a self, mut st: MutexGuard<'a, State>, id: usize) -> MutexGuard<'a, State> {
-        while st.current != id {
+        while st.current != id && !st.released {
             st = self.cvs[id].wait(st).unwrap_or_else(|e| e.into_inner());
         }
         st
     }
 
+    /// The callers are done but threads the crate spawned are still alive: let them wind down
+    /// under the scheduler for a while; once they are all idle (or after a bounded number of
+    /// decisions) hand them back to the operating system.
+    fn release(&self, st: &mut State) {
+        st.released = true;
+        st.current = NOBODY;
+        self.released.store(true, std::sync::atomic::Ordering::SeqCst);
+        FOREIGN_THREADS.store(true, std::sync::atomic::Ordering::SeqCst);
+        for cv in &self.cvs {
+            cv.notify_all();
+        }
+        self.main_cv.notify_all();
+    }
+
+    pub fn is_released(&self) -> bool {
+        self.released.load(std::sync::atomic::Ordering::SeqCst)
+    }
+
     fn yield_point(&self, id: usize, site: &'static str) {
         let mut st = self.lock();
+        if st.released {
+            return;
+        }
         debug_assert_eq!(st.current, id, "task ran without the baton");
+        if st.in_tail() {
+            st.tail_decisions += 1;
+            if st.tail_decisions > 3000 {
+                self.release(&mut st);
+                return;
+            }
+        }
         let sid = match st.site_ids.get(site) {
             Some(v) => *v,
             None => {
@@ -273,13 +326,29 @@ impl Sim {
     /// that the episode is deadlocked.
     fn yield_blocked(&self, id: usize, site: &'static str) -> Result<bool, ()> {
         let mut st = self.lock();
+        if st.released {
+            return Ok(false);
+        }
         debug_assert_eq!(st.current, id, "task ran without the baton");
         st.stats.points += 1;
         st.stats.blocked_yields += 1;
         st.stats.sites.entry(site.to_string()).or_insert([0; 3])[0] += 1;
         st.blocked_streak += 1;
+        if st.in_tail() {
+            // only helper threads are left; all of them idle = the episode is over
+            st.tail_decisions += 1;
+            let n = st.alive.iter().filter(|a| **a).count() as u64;
+            if st.blocked_streak > 64 + 16 * n || st.tail_decisions > 3000 {
+                self.release(&mut st);
+                return Ok(false);
+            }
+        }
         let limit = 2000 + 500 * st.alive.len() as u64;
         if st.blocked_streak > limit {
+            if FOREIGN_THREADS.load(std::sync::atomic::Ordering::SeqCst) {
+                // a free-running thread may be what everybody waits for: block for real instead
+                return Ok(false);
+            }
             if st.deadlock.is_none() {
                 st.deadlock = Some(format!("{} consecutive blocked scheduling points at {}: every runnable task waits for another", st.blocked_streak, site));
             }
@@ -308,6 +377,9 @@ impl Sim {
         let mut st = self.lock();
         st.alive[id] = false;
         st.in_op[id] = false;
+        if st.released {
+            return;
+        }
         if st.alive.iter().any(|a| *a) {
             let next = st.choose(id, "exit", true);
             st.decisions.push(next as u8);
@@ -323,6 +395,11 @@ impl Sim {
 }
 
 impl State {
+    /// every caller task has finished; only threads spawned by the crate are still alive
+    fn in_tail(&self) -> bool {
+        !self.alive[..self.primary.min(self.alive.len())].iter().any(|a| *a)
+    }
+
     fn others(&self, id: usize, excluded: Option<usize>) -> Vec<usize> {
         (0..self.alive.len())
             .filter(|&t| self.alive[t] && t != id && Some(t) != excluded)
@@ -448,6 +525,11 @@ fn hook_impl(site: &'static str, may_crash: bool) {
         })
     });
     let Some((sim, id, crash)) = info else { return };
+    if sim.is_released() {
+        // the episode this thread belonged to is over: from now on it is an ordinary thread
+        CUR.with(|c| *c.borrow_mut() = None);
+        return;
+    }
     // never kill a caller that is already unwinding (a destructor of the crate reached a
     // scheduling point while a panic - the crate's own or an injected one - is in flight):
     // a second panic there would abort the process instead of ending one operation
@@ -466,6 +548,10 @@ fn hook_impl(site: &'static str, may_crash: bool) {
 pub fn clock_hook(sleep_ns: u64) -> Option<u64> {
     let info = CUR.with(|c| c.borrow().as_ref().map(|t| (t.sim.clone(), t.id)));
     let (sim, _id) = info?;
+    if sim.is_released() {
+        CUR.with(|c| *c.borrow_mut() = None);
+        return None;
+    }
     let mut st = sim.lock();
     st.clock_reads += 1;
     let jump = match st.rng.weighted(&[50, 20, 12, 8, 6, 4]) {
@@ -491,6 +577,10 @@ pub fn sync_hook(site: &'static str, blocked: bool) -> bool {
     }
     let info = CUR.with(|c| c.borrow().as_ref().map(|t| (t.sim.clone(), t.id)));
     let Some((sim, id)) = info else { return false };
+    if sim.is_released() {
+        CUR.with(|c| *c.borrow_mut() = None);
+        return false;
+    }
     match sim.yield_blocked(id, site) {
         Ok(y) => y,
         Err(()) => {
@@ -509,6 +599,7 @@ pub fn install_hook() {
     {
         fqcore::__fqsim::install(sync_hook);
         fqcore::__fqsim::install_clock(clock_hook);
+        fqcore::__fqsim::install_ctl(ctl_hook);
     }
     // false only if already installed by this process, which is fine
     let _ = fast_qr::verif_hooks::install(hook);
@@ -573,4 +664,102 @@ pub fn op_end(sim: &Arc<Sim>, id: usize) -> u32 {
 /// Scheduling point between two operations of a task.
 pub fn op_boundary(sim: &Arc<Sim>, id: usize) {
     sim.yield_point(id, "op:boundary");
+}
+
+// ---------------------------------------------------------------------------
+// Threads started by the crate under test (facade build only)
+// ---------------------------------------------------------------------------
+
+#[cfg(feature = "facade")]
+mod spawned {
+    use super::*;
+    use std::collections::HashMap;
+    use std::sync::atomic::{AtomicU64, Ordering};
+
+    static NEXT: AtomicU64 = AtomicU64::new(1);
+    static TOKENS: Mutex<Option<HashMap<u64, (Arc<Sim>, usize)>>> = Mutex::new(None);
+
+    fn tokens<R>(f: impl FnOnce(&mut HashMap<u64, (Arc<Sim>, usize)>) -> R) -> R {
+        let mut g = TOKENS.lock().unwrap_or_else(|e| e.into_inner());
+        f(g.get_or_insert_with(HashMap::new))
+    }
+
+    pub fn ctl(op: u32, arg: u64) -> u64 {
+        use fqcore::__fqsim::{TASK_DONE, TASK_ENTER, TASK_EXIT, TASK_IS, TASK_RAND, TASK_SPAWN};
+        match op {
+            TASK_IS => {
+                let t = CUR.with(|c| c.borrow().as_ref().map(|t| t.sim.clone()));
+                match t {
+                    Some(sim) if !sim.is_released() => 1,
+                    _ => 0,
+                }
+            }
+            TASK_SPAWN => {
+                let info = CUR.with(|c| c.borrow().as_ref().map(|t| (t.sim.clone(), t.id)));
+                let Some((sim, parent)) = info else { return 0 };
+                if sim.is_released() {
+                    return 0;
+                }
+                let mut st = sim.lock();
+                if st.released || st.alive.len() >= MAX_TASKS {
+                    return 0;
+                }
+                let id = st.alive.len();
+                st.alive.push(true);
+                st.in_op.push(true);
+                let p = 500 + st.rng.below(1000);
+                st.prio.push(p);
+                st.spawned += 1;
+                st.trace = fold(st.trace, 0x5BA3 ^ ((parent as u64) << 8) ^ id as u64);
+                drop(st);
+                let token = NEXT.fetch_add(1, Ordering::SeqCst);
+                tokens(|m| m.insert(token, (sim, id)));
+                token
+            }
+            TASK_ENTER => {
+                let e = tokens(|m| m.get(&arg).cloned());
+                if let Some((sim, id)) = e {
+                    task_enter(&sim, id);
+                }
+                0
+            }
+            TASK_EXIT => {
+                let e = tokens(|m| m.remove(&arg));
+                if let Some((sim, id)) = e {
+                    task_leave(&sim, id);
+                }
+                0
+            }
+            TASK_DONE => {
+                let e = tokens(|m| m.get(&arg).cloned());
+                match e {
+                    None => 1,
+                    Some((sim, id)) => {
+                        let st = sim.lock();
+                        if st.released || !st.alive[id] {
+                            1
+                        } else {
+                            0
+                        }
+                    }
+                }
+            }
+            TASK_RAND => {
+                let info = CUR.with(|c| c.borrow().as_ref().map(|t| t.sim.clone()));
+                match info {
+                    Some(sim) if arg > 0 && !sim.is_released() => {
+                        let mut st = sim.lock();
+                        st.rng.below(arg)
+                    }
+                    _ => 0,
+                }
+            }
+            _ => 0,
+        }
+    }
+}
+
+#[cfg(feature = "facade")]
+fn ctl_hook(op: u32, arg: u64) -> u64 {
+    spawned::ctl(op, arg)
 }
